@@ -150,7 +150,11 @@ func substSyms(body string, from, to []string) string {
 func hasQuant(s string) bool { return strings.Contains(s, "(forall ") || strings.Contains(s, "(exists ") }
 
 // qfQuery builds the quantifier-free strengthening of obligation o, or "" if it does not apply.
-func (c *Ctx) qfQuery(o Obl) string {
+func (c *Ctx) qfQuery(o Obl) string { return c.qfQueryK(o, 0) }
+
+// qfQueryK: as qfQuery; with consts > 0 every hypothesis forall over one 64-bit index is additionally instantiated at
+// the constants 0..consts-1 (byte-level facts about a buffer `forall k :: buf[k] == ...` used at fixed offsets).
+func (c *Ctx) qfQueryK(o Obl, consts int) string {
 	if len(c.foralls) == 0 {
 		return ""
 	}
@@ -220,6 +224,9 @@ func (c *Ctx) qfQuery(o Obl) string {
 		if !dup {
 			tuples = append(tuples, tuple{[]string{m}, []string{"Int"}})
 		}
+	}
+	for k := 0; k < consts; k++ {
+		tuples = append(tuples, tuple{[]string{i64(int64(k))}, []string{BV64}})
 	}
 	// --- hypotheses ---
 	var sb strings.Builder
